@@ -53,6 +53,7 @@ struct Runner {
     std::string elem, inst;
     long nev = 0, nskip = 0;
     bool broken = false, quiet = false;
+    bool mark = std::getenv("VH_MARK") != nullptr;
     json ext_vals = json::array(), ext_end = json::array();
 
     explicit Runner(std::string e) : elem(std::move(e))
@@ -393,6 +394,7 @@ struct Runner {
             if (ln.contains("reset")) {
                 reset();
                 broken = false;
+                if (mark) { vh::emit(json{{"op", "reset"}}); } // script boundary marker (resilient replay)
                 continue;
             }
             if (broken) { continue; }
